@@ -97,6 +97,7 @@ def stepLine (s : Option St × Nat) (line : String) : (Option St × Nat) × Stri
         let st' := nextDuty st (dec != "0" || !hasCons)
         ((some st', d), s!"ok q={st'.q} k={st'.expected.length}")
     | _, _, _ => (s, "bad-op")
+  | some "arbids" => (s, "done")      -- implementation-side oracle probe (committees with arbitrary operator ids), nothing to model
   | some "exitprobe" => (s, "done")   -- implementation-side oracle probe, nothing to model
   | some "reset" =>
     let (st', o) := stepLine1 s.1 line
